@@ -1403,4 +1403,53 @@ theorem absence_incomplete_asis (hne : HNonEmpty H) (v1 v2 : Bytes) :
     · show ([0x61] : Bytes) ≠ [0x61, 0x61]; decide
     · show ([0x61, 0x62] : Bytes) ≠ [0x61, 0x61]; decide
 end
+
+/-! A concrete injective layout, to show that `EncInj`/`KVInj` are satisfiable. -/
+
+def unary (n : Nat) : Bytes := List.replicate n 1 ++ [0]
+
+theorem unary_inj : ∀ (n m : Nat) (x y : Bytes), unary n ++ x = unary m ++ y → n = m ∧ x = y := by
+  intro n
+  induction n with
+  | zero =>
+    intro m x y h
+    cases m with
+    | zero => simpa [unary] using h
+    | succ m => simp [unary, List.replicate_succ] at h
+  | succ n ih =>
+    intro m x y h
+    cases m with
+    | zero => simp [unary, List.replicate_succ] at h
+    | succ m =>
+      simp only [unary, List.replicate_succ, List.cons_append, List.cons.injEq, true_and] at h
+      have := ih m x y (by simpa [unary] using h)
+      exact ⟨by omega, this.2⟩
+
+def zig (i : Int) : Nat := if 0 ≤ i then 2 * i.toNat else 2 * (-i).toNat - 1
+
+theorem zig_inj (i j : Int) (h : zig i = zig j) : i = j := by
+  unfold zig at h
+  split at h <;> split at h <;> omega
+
+def encToy (h s v : Int) (a b : Bytes) : Bytes :=
+  unary (zig h) ++ (unary (zig s) ++ (unary (zig v) ++ (unary a.length ++ (a ++ b))))
+
+theorem encToy_inj : EncInj encToy := by
+  intro h s v a b h' s' v' a' b' e
+  unfold encToy at e
+  obtain ⟨e1, e⟩ := unary_inj _ _ _ _ e
+  obtain ⟨e2, e⟩ := unary_inj _ _ _ _ e
+  obtain ⟨e3, e⟩ := unary_inj _ _ _ _ e
+  obtain ⟨e4, e⟩ := unary_inj _ _ _ _ e
+  obtain ⟨e5, e6⟩ := List.append_inj e e4
+  exact ⟨zig_inj _ _ e1, zig_inj _ _ e2, zig_inj _ _ e3, e5, e6⟩
+
+def encKVToy (a b : Bytes) : Bytes := unary a.length ++ (a ++ b)
+
+theorem encKVToy_inj : KVInj encKVToy := by
+  intro a b a' b' e
+  unfold encKVToy at e
+  obtain ⟨e4, e⟩ := unary_inj _ _ _ _ e
+  exact List.append_inj e e4
+
 end IavlProof
